@@ -1300,3 +1300,86 @@ def stale_rows(ctx, layers):
         if fn in reach and k not in live and " # overlap # " not in k:
             out.append(k)
     return out
+
+
+# ------------------------------------------------------------------ PAIRED-CALLS
+PAIR_FAMILIES = [
+    ("checks::unused_vars::UnusedVariableVisitor::push_scope", "checks::unused_vars::UnusedVariableVisitor::pop_scope",
+     "the scope stack of the unused-variable check: `pop_scope().expect(..)`, `add_binding .. expect(\"Should always be non-empty\")` and the "
+     "lookups in mark_used rely on every pop having its push in the same function"),
+    ("checks::type_checker::LocalBindings::enter_block", "checks::type_checker::LocalBindings::exit_block",
+     "the block stack of the type checker's local bindings: `LocalBindings::set .. expect(\"Should be non-empty\")` relies on balanced enter/exit"),
+]
+
+
+def paired_calls(P, res, label="PAIRED-CALLS"):
+    """every function that opens a scope closes it exactly once on every path before it opens the next one or returns, and
+    closes nothing it did not open. Conditional open/close pairs are accepted when both sit under the same enum arm."""
+    n = 0
+    for push_fn, pop_fn, why in PAIR_FAMILIES:
+        if push_fn not in P.funcs or pop_fn not in P.funcs:
+            raise M.MissingAnchor("%s / %s" % (push_fn, pop_fn))
+        for p_, f in sorted(P.funcs.items()):
+            pu = [bi for bi, t in f.calls() if M.callee_name(t) == push_fn]
+            po = [bi for bi, t in f.calls() if M.callee_name(t) == pop_fn]
+            if not pu and not po:
+                continue
+            n += 1
+            rets = [bi for bi in f.reachable_blocks() if f.blocks[bi]["term"]["t"] == "return"]
+
+            def analyse(extra_avoid):
+                probs = []
+                for x in pu:
+                    if x in extra_avoid:
+                        continue
+                    tgt = f.blocks[x]["term"]["target"]
+                    rng = D.event_ranges(f, {q: (1, 1) for q in po}, start=tgt, avoid=set(pu) | extra_avoid) if tgt is not None else {}
+                    rr = sorted({rng[b] for b in rets if b in rng})
+                    if rr and rr != [(1, 1)]:
+                        probs.append("after the open at %s the scope is closed %s times before the next open or return, depending on the path" % (
+                            f.loc(f.blocks[x]["term"].get("fn_span")), rr))
+                free = D.reach_from(f, [0], avoid_blocks=set(pu) | extra_avoid)
+                for q in po:
+                    if q in free:
+                        probs.append("the close at %s can be reached without an open in this function" % f.loc(f.blocks[q]["term"].get("fn_span")))
+                return probs
+            problems = analyse(set())
+            if problems:
+                # two `match` on the same value are the same condition: repeat the analysis once per variant of every enum
+                # place that is switched on more than once, with the arms of the other variants removed
+                groups = {}
+                for sw in D.enum_switches(f):
+                    pl = sw["place"]
+                    r_ = f.root_of({"copy": pl}, through_named=True)
+                    gk = json.dumps(r_[1], sort_keys=True) if r_[0] == "place" else None
+                    if gk:
+                        groups.setdefault(gk, []).append(sw)
+                groups = {k_: v_ for k_, v_ in groups.items() if len(v_) > 1}
+                if groups:
+                    all_ok = True
+                    worst = problems
+                    for gk, sws in groups.items():
+                        names = set()
+                        for sw in sws:
+                            for nm in sw["by_target"].values():
+                                names |= set(nm)
+                            names |= set(sw["otherwise_variants"])
+                        for v_ in sorted(names):
+                            avoid_ = set()
+                            for sw in sws:
+                                for tgt, nm in sw["by_target"].items():
+                                    if v_ not in nm:
+                                        avoid_ |= D.edge_dominated(f, sw["bb"], tgt)
+                                if v_ not in sw["otherwise_variants"] and sw["otherwise"] not in sw["by_target"]:
+                                    avoid_ |= D.edge_dominated(f, sw["bb"], sw["otherwise"])
+                            pr = analyse(avoid_)
+                            if pr:
+                                all_ok = False
+                                worst = pr
+                    problems = [] if all_ok else worst
+            key = "%s # %s/%s" % (p_, push_fn.split("::")[-1], pop_fn.split("::")[-1])
+            if problems:
+                res.bad(label, key + " # unbalanced", "%s: %s (%s)" % (p_, "; ".join(problems), why), f.loc())
+            else:
+                res.ok(label, key + ": %d open / %d close, balanced on every path" % (len(pu), len(po)))
+    res.floor(label, "functions that open or close a checked scope", n, 14)
